@@ -311,7 +311,7 @@ def pat_names(p):
 class Sym:
     """Normal form builder."""
 
-    def __init__(self, env, facts=None, depth=12, through=False, keep=()):
+    def __init__(self, env, facts=None, depth=40, through=False, keep=()):
         """through=True also substitutes single-assignment lets whose initialiser reads `&mut` state (the value *at the
         definition*): for rules that ask where a value comes from, not what it equals at a later point."""
         self.env = env
@@ -778,7 +778,7 @@ class Exec(Sym):
     update locals are merged into ("if", c, a, b) / ("match", scrut, arms) terms.
     Strings built by `String::new` + push/push_str become ("str", part, part, ...)."""
 
-    def __init__(self, fn_hir, facts=None, depth=14, tolerant=False):
+    def __init__(self, fn_hir, facts=None, depth=40, tolerant=False):
         """tolerant=True: a loop does not abort the summary; what it assigns becomes unknown and a string it appends to gets
         one opaque chunk ("s", ("opaque", "loop")) - for summaries whose interesting part lies outside the loops."""
         super().__init__(Env(fn_hir, facts), facts, depth)
